@@ -382,7 +382,7 @@ func (g *irGenCtx) genRoute(ci, ri int, ctrlPath string, schemes []irScheme, per
 		rt.Responses = []irType{vt, errT}
 		rt.RespSerials = []uint64{g.nextSerial(), g.nextSerial()}
 		rt.HasReturnValue = true
-		rt.SuccessCode = rng.Pick(r, []uint{200, 200, 201, 202})
+		rt.SuccessCode = rng.Pick(r, []uint{200, 200, 201, 202, 204})
 	} else {
 		rt.Responses = []irType{errT}
 		rt.RespSerials = []uint64{g.nextSerial()}
